@@ -47,8 +47,10 @@ def contains (c : Circle) (p : Pt) : Bool :=
 
 /-- `OffsetOutline::offset` -/
 def offset (c : Circle) (o : Int) : Circle :=
-  let d := if o ≥ 0 then satAddU32 c.d (2 * o.toNat) else c.d - 2 * (-o).toNat
-  withCenter c.center d
+  if o ≥ 0 then
+    -- growing moves the top left corner directly (a zero sized circle has no centre pixel)
+    ⟨c.tl - ⟨o, o⟩, satAddU32 c.d (2 * o.toNat)⟩
+  else withCenter c.center (c.d - 2 * (-o).toNat)
 
 def translate (c : Circle) (by_ : Pt) : Circle := { c with tl := c.tl + by_ }
 
